@@ -41,6 +41,10 @@ package gcsca
 //@   ensures[C10,C11] err == nil ==> result0 != nil && exists(i, 0 <= i && i < len(manifest.Entries) && manifest.Entries[i].KeyVersionName == keyVersionName)
 //@   ensures[C10,C11] len(manifest.Entries) >= old(len(manifest.Entries)) && forall(i, 0 <= i && i < old(len(manifest.Entries)) ==> manifest.Entries[i] == old(manifest.Entries[i]))
 //@   ensures[C10,C11] forall(i, 0 <= i && i < old(len(manifest.Entries)) ==> old(manifest.Entries[i]) == manifest.Entries[i])
+// C03 (the certificate served for a key version is the one issued for it): outside --keep_going a key version newly
+// entered in the manifest is entered with an object that now holds exactly the given certificate - an object that was
+// already there is never adopted for it.
+//@   ensures[C03] err == nil && !allowRecoverable(ctx) && len(manifest.Entries) == old(len(manifest.Entries)) + 1 ==> manifest.Entries[old(len(manifest.Entries))] != nil && manifest.Entries[old(len(manifest.Entries))].KeyVersionName == keyVersionName && diskData[manifest.Entries[old(len(manifest.Entries))].ObjectPath] == old(val(cert.Raw))
 
 //@ func (*CertificateAuthority).certObjectName
 //@   assigns nothing
